@@ -212,7 +212,7 @@ def enum_streams(seed):
     try:
         work = os.path.join(scratch, "work")
         os.makedirs(os.path.join(work, "sub"))
-        for n in ("file.txt", "other.txt", "sub/inner.txt"):
+        for n in ("file.txt", "other.txt", "zz.txt", "sub/inner.txt"):
             open(os.path.join(work, n), "w").write("data\n")
         os.symlink("file.txt", os.path.join(work, "alink"))
         # (label, request builder, predicate on the image telling whether the action took effect)
@@ -225,6 +225,11 @@ def enum_streams(seed):
             ("dodir with unknown install option (external install)", lambda nf: _req("dodir", ["/usr/share/e"], work, nf, "--diroptions '-m0700 -C'"), exists("usr/share/e"), True),
             ("doins failing external install", lambda nf: _req("doins", ["file.txt"], work, nf, "--dest /usr/share/f --insoptions '--no-such-option'"), exists("usr/share/f/file.txt"), False),
             ("doins missing file", lambda nf: _req("doins", ["missing.txt"], work, nf), lambda ED: False, False),
+            # several destination groups through the external install command, an early one failing and the last one succeeding
+            ("doexe directory and file via external install", lambda nf: _req("doexe", ["sub", "zz.txt"], work, nf, "--dest /usr/libexec --insoptions '-m0755 -C'"),
+             lambda ED: os.path.lexists(os.path.join(ED, "usr/libexec/sub")) and os.path.lexists(os.path.join(ED, "usr/libexec/zz.txt")), False),
+            ("doexe two files via external install", lambda nf: _req("doexe", ["file.txt", "zz.txt"], work, nf, "--dest /usr/libexec2 --insoptions '-m0755 -C'"),
+             lambda ED: os.path.lexists(os.path.join(ED, "usr/libexec2/file.txt")) and os.path.lexists(os.path.join(ED, "usr/libexec2/zz.txt")), True),
             ("doins directory without -r", lambda nf: _req("doins", ["sub"], work, nf, "--dest /usr/share/g"), exists("usr/share/g/sub"), False),
             ("doins -r directory", lambda nf: _req("doins", ["-r", "sub"], work, nf, "--dest /usr/share/h"), exists("usr/share/h/sub/inner.txt"), True),
             ("dosym", lambda nf: _req("dosym", ["file.txt", "/usr/share/d/link"], work, nf), exists("usr/share/d/link"), True),
@@ -238,7 +243,7 @@ def enum_streams(seed):
                 ED = os.path.join(scratch, f"image{cases}")
                 os.makedirs(ED)
                 op = types.SimpleNamespace(pkg=FakePkg("cat/pkg-1", eapi="8"), ED=ED, observer=_Observer(), env={"T": ED}, userpriv=False, domain=None)
-                helpers = {"dosym": I.Dosym(op), "doins": I.Doins(op), "dodir": I.Dodir(op)}
+                helpers = {"dosym": I.Dosym(op), "doins": I.Doins(op), "dodir": I.Dodir(op), "doexe": I.Doexe(op)}
                 stream = [REQS[i] for i in order]
                 d = _Daemon([r[1](nonfatal) for r in stream])
                 E.request_ebuild_processor = lambda **kw: d
@@ -278,7 +283,7 @@ def enum_streams(seed):
     finally:
         E.request_ebuild_processor, E.release_ebuild_processor = real_req, real_rel
         shutil.rmtree(scratch, ignore_errors=True)
-    return {"name": "C32.request_streams.bounded_enumeration", "bound": "a 1/11 sample of the ordered triples of 11 helper requests (dodir, doins, dosym; valid, invalid, with options forcing the external install command, with a failing external install), "
+    return {"name": "C32.request_streams.bounded_enumeration", "bound": "a 1/11 sample of the ordered triples of 13 helper requests (dodir, doins, doexe, dosym; several destination groups through the external install with an early failure; valid, invalid, with options forcing the external install command, with a failing external install), "
             "each in nonfatal and in fatal mode, through the real run_generic_phase with a scripted daemon; replies compared with the image directory", "cases": cases, "failures": fails[:6]}
 
 
